@@ -29,7 +29,9 @@ def setup_clib(clib):
            "reb_rotation_mul": (Rot, [Rot, Rot]), "reb_rotation_conjugate": (Rot, [Rot]), "reb_rotation_normalize": (Rot, [Rot]),
            "reb_rotation_inverse": (Rot, [Rot]), "reb_rotation_identity": (Rot, []),
            "reb_rotation_init_from_to": (Rot, [V3, V3]), "reb_rotation_init_angle_axis": (Rot, [D, V3]),
-           "reb_rotation_init_to_new_axes": (Rot, [V3, V3]), "reb_rotation_init_orbit": (Rot, [D, D, D])}
+           "reb_rotation_init_to_new_axes": (Rot, [V3, V3]), "reb_rotation_init_orbit": (Rot, [D, D, D]),
+           "reb_rotation_slerp": (Rot, [Rot, Rot, D]),
+           "reb_rotation_to_orbital": (None, [Rot, ctypes.POINTER(D), ctypes.POINTER(D), ctypes.POINTER(D)])}
     for n, (r, a) in sig.items():
         f = getattr(clib, n)
         f.restype = r
@@ -43,6 +45,8 @@ class Libm:
         for n in ("sin", "cos"):
             getattr(m, n).restype = D
             getattr(m, n).argtypes = [D]
+        m.acos.restype = D
+        m.acos.argtypes = [D]
         m.atan2.restype = D
         m.atan2.argtypes = [D, D]
         m.sincos.restype = None
@@ -145,7 +149,8 @@ def rotation_cases(ctx, clib, libm, n):
     cases = []      # (kind, coq term, expected list, input for reporting)
     skipped = 0
     kinds = ["vmul", "vadd", "vcross", "vdot", "vlsq", "vnormalize", "vrotate", "virotate", "qmul", "qconj", "qnormalize",
-             "qinverse", "qidentity", "from_to", "from_to", "from_to", "angle_axis", "to_new_axes", "to_new_axes", "orbit"]
+             "qinverse", "qidentity", "from_to", "from_to", "from_to", "angle_axis", "to_new_axes", "to_new_axes", "orbit",
+             "to_orbital", "to_orbital", "slerp", "slerp"]
     for k in range(n):
         kind = kinds[k % len(kinds)]
         if kind == "vmul":
@@ -219,6 +224,32 @@ def rotation_cases(ctx, clib, libm, n):
                 skipped += 1; continue
             args = " ".join("%s %s" % (vlib.fhex(c), vlib.fhex(s)) for c, s in o)
             cases.append((kind, "(r_orbit %s)" % args, lq(clib.reb_rotation_init_orbit(Om, inc, om)), (Om, inc, om)))
+        elif kind == "to_orbital":
+            u = rng.random()
+            if u < 0.5:
+                q = lq(clib.reb_rotation_init_orbit(rng.uniform(-7, 7), rng.choice([0.0, math.pi, 1e-9, math.pi - 1e-9, rng.uniform(-4, 4),
+                                                                                   rng.gauss(0, 1e-7)]), rng.uniform(-7, 7)))
+            else:
+                q = rquat(rng)
+            X = 2.0 * (q[3] * q[3] + q[2] * q[2]) - 1.0          # same expression as the C source; part of the compared output
+            inc = libm.m.acos(X); hs = libm.m.atan2(q[2], q[3]); hd = libm.m.atan2(q[1], q[0])
+            O, I, o = ctypes.c_double(), ctypes.c_double(), ctypes.c_double()
+            clib.reb_rotation_to_orbital(rot(q), ctypes.byref(O), ctypes.byref(I), ctypes.byref(o))
+            cases.append((kind, "(r_to_orbital %s %s %s %s %s)" % (vlib.fhex(math.pi), vlib.fhex(inc), vlib.fhex(hs), vlib.fhex(hd), Qc(q)),
+                          [X, O.value, I.value, o.value], q))
+        elif kind == "slerp":
+            q1, q2 = rquat(rng), rquat(rng)
+            u = rng.random()
+            if u < 0.15: q2 = list(q1)
+            elif u < 0.3: q2 = [-x for x in q1]
+            elif u < 0.45: q2 = [x + rng.gauss(0, 1e-5) for x in q1]
+            t = rng.choice([0.0, 1.0, 0.5, rng.random(), rng.uniform(-1, 2)])
+            c = q1[3] * q2[3] + q1[0] * q2[0] + q1[1] * q2[1] + q1[2] * q2[2]
+            ht = libm.m.acos(c)
+            aA, aB = (1.0 - t) * ht, t * ht
+            sA, sB = libm.m.sin(aA), libm.m.sin(aB)
+            cases.append((kind, "(r_slerp %s %s %s %s %s %s)" % (vlib.fhex(ht), vlib.fhex(sA), vlib.fhex(sB), vlib.fhex(t), Qc(q1), Qc(q2)),
+                          [c, aA, aB] + lq(clib.reb_rotation_slerp(rot(q1), rot(q2), t)), (q1, q2, t)))
         ctx.case(key=("rot", kind, k), sample={"kind": kind, "input": cases[-1][3]} if k in (13, 16) else None)
     return cases, skipped
 
@@ -231,10 +262,12 @@ def snap(sim):
     return [[getattr(sim.particles[i], c) for c in ["m"] + COMPS] for i in range(sim.N)]
 
 
-def rand_sim(rebound, rng, with_var):
-    """random simulation; returns (sim, nreal, sets) with sets = list of dicts(order, index, testparticle, a, b)"""
+def rand_sim(rebound, rng, with_var, directed=False):
+    """random simulation; returns (sim, nreal, sets) with sets = list of dicts(order, index, testparticle, a, b).
+    directed: N_real >= 3, moving massive star, two full first-order sets BOTH with mass variations of every particle (k >= 2 included),
+    and second-order sets (a,b) = (first, second) and (second, second)."""
     sim = rebound.Simulation()
-    n = rng.choice([1, 2, 2, 3, 3, 4, 5, 7])
+    n = rng.choice([1, 2, 2, 3, 3, 4, 5, 7]) if not directed else rng.choice([3, 4])
     sc = 10 ** rng.uniform(-2, 2)
     for i in range(n):
         u = rng.random()
@@ -244,6 +277,18 @@ def rand_sim(rebound, rng, with_var):
         sim.add(m=m, x=rng.gauss(0, 1) * sc, y=rng.gauss(0, 1) * sc, z=rng.gauss(0, 1) * sc,
                 vx=rng.gauss(0, 1), vy=rng.gauss(0, 1), vz=rng.gauss(0, 1))
     sets = []
+    if directed:
+        f1 = sim.add_variation(order=1); f2 = sim.add_variation(order=1)
+        sets += [{"order": 1, "index": f1.index, "testparticle": -1}, {"order": 1, "index": f2.index, "testparticle": -1}]
+        for a, b in ((f1, f2), (f2, f2)):
+            v = sim.add_variation(order=2, first_order=a, first_order_2=b)
+            sets.append({"order": 2, "index": v.index, "testparticle": -1, "a": a.index, "b": b.index})
+        for i in range(n, sim.N):
+            p = sim.particles[i]
+            p.m = rng.choice([-1, 1]) * rng.uniform(0.01, 0.3)
+            for c in COMPS:
+                setattr(p, c, rng.gauss(0, 1))
+        return sim, n, sets
     if with_var:
         firsts = []
         for _ in range(rng.choice([1, 1, 2, 3])):
@@ -280,7 +325,8 @@ def frame_cases(ctx, rebound, clib, nsims):
     pyfail = []      # direct (model = "unchanged") mismatches
     for k in range(nsims):
         op = ["com", "com", "comvar", "comvar", "comvar", "hel", "helvar", "imul", "iadd", "isub"][k % 10]
-        sim, n, sets = rand_sim(rebound, rng, op in ("comvar", "helvar") or (op in ("imul", "iadd", "isub") and rng.random() < 0.4))
+        sim, n, sets = rand_sim(rebound, rng, op in ("comvar", "helvar") or (op in ("imul", "iadd", "isub") and rng.random() < 0.4),
+                                directed=(op == "comvar" and k < 40))
         before = snap(sim)
         ms = [before[i][0] for i in range(n)]
         ctx.case(key=("frame", op, n, len(sets), k), sample={"op": op, "N_real": n, "var_sets": sets, "masses": ms} if k in (2, 5) else None)
@@ -405,6 +451,10 @@ def units_cases(ctx, rebound, clib):
         fn, fd = g.as_integer_ratio() if math.isfinite(g) else (0, 1)
         terms.append('G_close "%s" "%s" "%s" (%d)%%Z (%d)%%Z' % (l, t, m, fn, fd))
         info.append(("G", (l, t, m), g))
+        # the three python_unit_* fields as left by the setter vs the model of update_units
+        terms.append(" && ".join('N.eqb (fieldv (update_units "%s" "%s" "%s") "%s") %d%%N' % (l, t, m, f, getattr(sim, f))
+                                 for f in ("python_unit_l", "python_unit_t", "python_unit_m")))
+        info.append(("fields", (l, t, m), [sim.python_unit_l, sim.python_unit_t, sim.python_unit_m]))
         ctx.case(key=("G", l, t, m), sample={"units": order, "G": g} if len(info) == 1 else None)
     for tbl, name in ((U.lengths_SI, "lengths_SI"), (U.times_SI, "times_SI"), (U.masses_SI, "masses_SI")):
         for k, v in tbl.items():
@@ -420,7 +470,7 @@ def units_cases(ctx, rebound, clib):
     info.append(("table", ("G_SI", ""), U.G_SI))
     terms.append("(List.length lengths_SI =? %d)%%nat && (List.length times_SI =? %d)%%nat && (List.length masses_SI =? %d)%%nat" % (len(L), len(T), len(M)))
     info.append(("table sizes", None, None))
-    body = ("From Coq Require Import List ZArith NArith String Bool.\nFrom RV Require Import Gen.Units C20.Units C20.UnitsRun.\n"
+    body = ("From Coq Require Import List ZArith NArith String Bool.\nFrom RV Require Import Gen.Units C20.Units C20.UnitsRun C20.UnitsState.\n"
             "Import ListNotations.\nOpen Scope string_scope.\nOpen Scope bool_scope.\n"
             "Definition cases : list bool := [\n" + ";\n".join(terms) + "].\nEval vm_compute in (bad_bools cases).\n")
     ok, out = vlib.coq_eval("c20_units", body)
@@ -431,7 +481,7 @@ def units_cases(ctx, rebound, clib):
 def run(ctx):
     libdir = ctx.lib()
     ctx.regen("translate_units.py")
-    proved = ctx.prove("C20", extra_targets=["C20/Run.vo", "C20/UnitsRun.vo"])
+    proved = ctx.prove("C20", extra_targets=["C20/Run.vo", "C20/UnitsRun.vo", "C20/UnitsState.vo"])
     sys.path.insert(0, libdir)
     import rebound
     clib = vlib.load_clib(libdir)      # private handle: argtypes set here do not leak into rebound's python layer
